@@ -332,11 +332,11 @@ func c01Compose(c *Ctx, k *core, merge *ssa.Function) {
 		}
 		return false
 	}
-	okSrc := derivesAll(ov, isSlotValue, &flowOpts{through: map[string]bool{"(reflect.Value).Elem": true, "(*" + modPath + ".deepCopier).deepCopyValue": false}, w: c.W, maxDepth: 0})
+	okSrc := derivesAll(ov, isSlotValue, &flowOpts{through: map[string]bool{"(reflect.Value).Elem": true, "reflect.Indirect": true, "(*" + modPath + ".deepCopier).deepCopyValue": false}, w: c.W, maxDepth: 0})
 	if !okSrc {
 		// through the deep copy call: its last argument
 		if call, ok := ov.(*ssa.Call); ok && len(call.Call.Args) > 0 {
-			okSrc = derivesAll(call.Call.Args[len(call.Call.Args)-1], isSlotValue, &flowOpts{through: map[string]bool{"(reflect.Value).Elem": true}})
+			okSrc = derivesAll(call.Call.Args[len(call.Call.Args)-1], isSlotValue, &flowOpts{through: map[string]bool{"(reflect.Value).Elem": true, "reflect.Indirect": true}})
 		}
 	}
 	c.check(okSrc && idx != nil && isForwardRangeIndex(idx), "order-compose", name+"#forward", ci.Pos(),
